@@ -22,7 +22,7 @@ from fiddle._src.experimental import visualize
 from harness import common, l2, c02
 from harness.common import Failure, Result, Stream
 
-COQ_TARGETS = ["theories/C20Check.vo", "theories/Anchors.vo"]
+COQ_TARGETS = ["theories/C20Check.vo", "theories/AnchorsBuild.vo"]
 TRUSTED_BASE = ["inspect.signature.bind_partial (used only by the oracle to compare built functools.partial objects "
                 "modulo the callee's defaults)"]
 ASSUMPTIONS = ["oracle conventions (DESIGN 4/C20): a built functools.partial is compared after dropping bound "
